@@ -451,6 +451,10 @@ class Engine:
             if f is None:
                 raise OutOfSubset("binary operator on constants")
             return s.lift(f(a.v, b.v))
+        if isinstance(op, ast.BitOr) and isinstance(a, SDict) and isinstance(b, SDict):
+            d = dict(a.d)
+            d.update(b.d)
+            return SDict(d)
         if isinstance(op, ast.Add) and isinstance(a, (SSeq, STup)) and isinstance(b, (SSeq, STup)):
             if isinstance(a, STup) and isinstance(b, STup):
                 return STup(a.items + b.items, a.pykind)
